@@ -67,4 +67,5 @@ SILENT_EDITS = [   # behaviour-preserving, reported nothing new
 
 
 def run(ctx):
-    return [pC21.rule_abstract_handlers(ctx), pC21.rule_visitor_state(ctx), pC21.rule_lattice(ctx), pC21.rule_defaults_guards(ctx), pC21.rule_infer(ctx)]
+    from ..rules import cfgjump
+    return [pC21.rule_abstract_handlers(ctx), pC21.rule_visitor_state(ctx), pC21.rule_lattice(ctx), pC21.rule_defaults_guards(ctx), pC21.rule_infer(ctx), cfgjump.rule_jump(ctx)]
